@@ -59,6 +59,8 @@ class Harness:
         self.handed = {}      # instance -> list object handed to the block by the last assign / construct
         self.share_ok = False
         self.nf = [3, 1, 0, 2][seed % 4]   # frame count of the blocks of this history
+        if kind == "EMG" and seed % 16 == 5:
+            self.nf = 120000                # a count at which "almost equal" is not equal
         if kind == "FPData" and self.nf == 0:
             self.nf = 2                    # the tag of an unlabelled platform lives in its first frame
         self.inst = [None] * (SLOTS + 1)
@@ -132,6 +134,13 @@ class Harness:
             it = EMGTrack(text, a[:, 0].copy()) if self.kind == "EMG" else MarkerTrack(text, a.copy())
             it.data = it.data[: NF - 1] if NF > 1 else np.concatenate([it.data, it.data])
             return it
+        if not good and t % 5 == 3 and self.kind == "Data3D" and NF > 0 and self.inst[inst] is not None and len(self.inst[inst]):
+            # an object of ANOTHER kind that compares equal to a track the block holds (same label, same data)
+            twin_of = list(self.inst[inst])[0]
+            try:
+                return EMGTrack(twin_of.label, np.array(twin_of.data))
+            except Exception:  # noqa: BLE001
+                return None
         if not good and t % 5 == 4 and self.kind in ("EMG", "Data3D") and NF > 0:
             # an item of the right kind whose data is a plain nested list (no shape): whatever
             # exception that provokes, the block must stay as it was
@@ -315,7 +324,11 @@ class Harness:
             try:
                 Tdf.new(path)
                 with Tdf(path) as f:
-                    first, second = f.get_block(self.tagc % 14), (f.blocks[(self.tagc + 3) % 14] if self.tagc % 2 else f[(self.tagc + 5) % 14])
+                    if self.tagc % 3 == 0:
+                        listing = f.blocks          # two slots of one listing
+                        first, second = listing[self.tagc % 14], listing[(self.tagc + 3) % 14]
+                    else:
+                        first, second = f.get_block(self.tagc % 14), (f.blocks[(self.tagc + 3) % 14] if self.tagc % 2 else f[(self.tagc + 5) % 14])
                 first.creation_date = b.creation_date
                 if second is not first:
                     second.creation_date = b.creation_date
@@ -581,8 +594,11 @@ class Harness:
             # tracks of a block with another frame count are wrong-length items for this one
             o["compat"] = bool(self.frames_of(i) == self.frames_of(j) or not self.items_of(src))
 
+            form = self.nops.get(i, 0) % 2
+
             def fn():
-                b.tracks = src.tracks
+                # the list the getter hands out, or the block itself (iterating a block yields its tracks)
+                b.tracks = src.tracks if form == 0 else src
         elif op == "aux" and self.kind == "Unused":
             def fn():
                 from datetime import timedelta
